@@ -827,14 +827,14 @@ theorem dictSet_ne_nil {β} (d : List (List Char × β)) (k : List Char) (v : β
 
 /-- what the code calls a bad entry of `selective_gapic_generation.methods` -/
 def BadMethod (allMethods : List (List Char)) (version m : List Char) : Prop :=
-  m ∉ allMethods ∨ version.isPrefixOf m = false
+  m ∉ allMethods ∨ (version ++ ['.']).isPrefixOf m = false
 
 theorem methodErrors_fold_ne_nil (allMethods : List (List Char)) (version : List Char) :
     ∀ (ms : List (List Char)) (d : List (List Char × MethodErr)),
       (d ≠ [] ∨ ∃ m ∈ ms, BadMethod allMethods version m) →
       ms.foldl (fun d m =>
         if m ∉ allMethods then dictSet d m .missing
-        else if !(version.isPrefixOf m) then dictSet d m .mismatch
+        else if !((version ++ ['.']).isPrefixOf m) then dictSet d m .mismatch
         else d) d ≠ [] := by
   intro ms
   induction ms with
@@ -934,11 +934,12 @@ theorem validateLoop_nil_of_good (allMethods : List (List Char)) :
 end Aux
 
 /-- Listing a method that does not exist in the API to generate, or one whose name does not start
-with the version of its settings entry, makes `API.build` raise `ClientLibrarySettingsError` —
-whatever else the service YAML says and for whichever package the library is built. -/
+with the version of its settings entry FOLLOWED BY A DOT (whole package segments, `fix:` a25ff42),
+makes `API.build` raise `ClientLibrarySettingsError` — whatever else the service YAML says and for
+whichever package the library is built. -/
 theorem unknown_or_wrong_version_rejected (api : Api) (settings : List LibSettings) (pp pkg : List Char)
     (s : LibSettings) (m : List Char) (hs : s ∈ settings) (hm : m ∈ s.methods)
-    (hbad : m ∉ api.allMethods ∨ s.version.isPrefixOf m = false) :
+    (hbad : m ∉ api.allMethods ∨ (s.version ++ ['.']).isPrefixOf m = false) :
     ∃ errs, errs ≠ [] ∧ thirdPass api settings pp pkg = .rejected errs := by
   have hne : validateSettings api.allMethods settings ≠ [] :=
     validateLoop_ne_nil api.allMethods settings [] [] (Or.inr ⟨s, hs, m, hm, hbad⟩)
@@ -947,10 +948,10 @@ theorem unknown_or_wrong_version_rejected (api : Api) (settings : List LibSettin
   simp [hne]
 
 /-- Conversely nothing else is rejected: distinct versions whose methods all exist and carry the
-version as a prefix pass validation. -/
+version plus a dot as a prefix pass validation. -/
 theorem valid_settings_accepted (allMethods : List (List Char)) (settings : List LibSettings)
     (hnd : (settings.map (·.version)).Nodup)
-    (hgood : ∀ s ∈ settings, ∀ m ∈ s.methods, m ∈ allMethods ∧ s.version.isPrefixOf m = true) :
+    (hgood : ∀ s ∈ settings, ∀ m ∈ s.methods, m ∈ allMethods ∧ (s.version ++ ['.']).isPrefixOf m = true) :
     validateSettings allMethods settings = [] := by
   apply validateLoop_nil_of_good allMethods settings [] (by simp) hnd
   intro s hs m hm hb
@@ -1051,7 +1052,8 @@ example : validateSettings exApi.allMethods [⟨"q".toList, ["p.Lib.Get".toList]
     = [("q".toList, .selective [("p.Lib.Get".toList, .mismatch)])] := by decide
 example : validateSettings exApi.allMethods [⟨"p".toList, exListed, false⟩] = [] := by decide
 
-/-! ## Where the real code violates the statement (each input is replayed on /repo by the check) -/
+/-! ## Where the real code violates the statement (the input is replayed on /repo by the check), and
+the regression theorem for the defect that has been repaired -/
 
 /-- A nested type can be kept while the message that declares it is pruned: `Outer.Inner` (11) and
 the enum `Outer.Kind`-like 20 are on the allow-list of `Get`, their enclosing message `Outer` (12) is
@@ -1064,13 +1066,29 @@ theorem nested_kept_parent_pruned_counterexample :
       child ∈ allowlist api listed ∧ parent.addr ∉ allowlist api listed :=
   ⟨exApi, exListed, ⟨12, [], [21], [11]⟩, 11, by decide, by decide, by decide, by decide, by decide, by decide⟩
 
-/-- "Another version" is recognised by a plain string prefix: a method of package `a.v1beta` listed
-under the settings of version `a.v1` passes validation, although `a.v1.` is not a prefix of its name
-(known finding `version-prefix-not-segment-aligned`). -/
-theorem version_prefix_counterexample :
-    ∃ (allMethods : List (List Char)) (version m : List Char),
-      m ∈ allMethods ∧ (version ++ ['.']).isPrefixOf m = false ∧
-      validateSettings allMethods [⟨version, [m], false⟩] = [] :=
-  ⟨["a.v1beta.S.M".toList], "a.v1".toList, "a.v1beta.S.M".toList, by decide, by decide, by decide⟩
+/-- Regression for the repaired defect `version-prefix-not-segment-aligned` (`fix:` a25ff42): a method
+of package `a.v1beta` listed under the settings of version `a.v1` exists in the API and shares the
+string prefix, and is nevertheless rejected as a version mismatch. -/
+theorem version_prefix_rejected :
+    validateSettings [['a','.','v','1','b','e','t','a','.','S','.','M']]
+        [⟨['a','.','v','1'], [['a','.','v','1','b','e','t','a','.','S','.','M']], false⟩]
+      = [(['a','.','v','1'], .selective [(['a','.','v','1','b','e','t','a','.','S','.','M'], .mismatch)])] := by
+  decide
+
+/-- In general: a listed method in whose name the version is not followed by a dot is rejected, even
+if it exists and the version is a string prefix of it. -/
+theorem version_must_end_a_segment (allMethods : List (List Char)) (version rest : List Char)
+    (hrest : ∀ r, rest ≠ '.' :: r) :
+    validateSettings allMethods [⟨version, [version ++ rest], false⟩] ≠ [] := by
+  have hbad : BadMethod allMethods version (version ++ rest) := by
+    right
+    rw [Bool.eq_false_iff]
+    intro h
+    obtain ⟨t, ht⟩ := List.isPrefixOf_iff_prefix.mp h
+    rw [List.append_assoc] at ht
+    have := List.append_cancel_left ht
+    exact hrest t (by simpa using this.symm)
+  exact validateLoop_ne_nil allMethods [⟨version, [version ++ rest], false⟩] [] []
+    (Or.inr ⟨⟨version, [version ++ rest], false⟩, by simp, version ++ rest, by simp, hbad⟩)
 
 end GapicModel.Props.C16
